@@ -38,6 +38,8 @@ import Proofs.FormatDeclLex
 
 import Proofs.FormatResLex
 
+import Proofs.FormatCall2Lex
+
 namespace Props.C09
 open Martian.Format
 
@@ -640,5 +642,179 @@ theorem stage_clause_near_misses :
     fieldsU [0x78, 0xC2, 0xA0, 0x79, 0x09, 0x7A] = [[0x78], [0x79], [0x7A]] := by decide +kernel
 
 end StageClauses
+
+/-! ## the full call statement and the other statements of a pipeline body
+
+Model: `Martian.FormatCall2`.  `fmtCall2 p c` = `CallStm.format(printer, p)` (`p` = `""` for the
+top-level call of a file, INDENT inside a pipeline) with `map`, `as`, the wildcard binding
+`* = self` / `* = REF` (after which `BindStms.format` stops), the `) using (` block (keyword
+modifiers converted to `= true` bindings unless bound, sorted by id, aligned); `fmtReturn`,
+`fmtPRetain`, `fmtBody` = `ReturnStm.format`, `PipelineRetains.format`, the statement part of
+`Pipeline.format`.  Readers `pCall2` / `pReturn` / `pPRetain` / `pBody` on tokens (they return the
+remaining tokens), `parseCall2` / `parseBody` on source text.  `wfCall2`: ids are identifiers,
+binding values well-formed (`wfBind`), the wildcard value is `self` or a well-formed reference,
+the `using` block holds distinct ids out of local/preflight/volatile (boolean) and disabled
+(well-formed reference).  `normCall2`: `norm` on the binding values, keyword modifiers converted,
+block sorted.  Tied on every run (harness/c09call2.go): printed, respelled and near-miss texts of
+top-level calls and of pipeline bodies against `UncheckedParse` and `FormatSrcBytes`, and
+`Ast.Format` on an AST whose wildcard binding was moved off the last position. -/
+section PipelineStatements
+open Martian.FormatExp Martian.FormatCall Martian.FormatCall2
+
+/-- **Round trip, call statement.**  For EVERY well-formed call statement (`call` / `map call`, any
+callee name incl. `local`/`preflight`/`volatile`, `as`, explicit and split bindings, a final
+wildcard binding, keyword modifiers, a `using` block, or both), the reader accepts the printed
+text of a file holding just the call and returns the call in normal form. -/
+theorem parse_format_call2 (c : Call2) (hw : wfCall2 c = true) :
+    parseCall2 (fmtCall2 [] c) = some (normCall2 c) :=
+  parseCall2_fmtCall2 c hw
+
+/-- **Round trip inside a pipeline**: whatever the (white-space) indentation and whatever text
+follows, as long as that text lexes and its first token is not `using`: the reader returns the
+normal form of the call and the tokens of the following text. -/
+theorem parse_format_call2_in_context (p : List UInt8) (c : Call2) (rest : List UInt8) (ts : List Tok)
+    (hp : p.all isSp = true) (hw : wfCall2 c = true) (hrest : lexAll rest = some ts)
+    (hr : ∀ r, ts ≠ .id sUsing :: r) :
+    (lexAll (fmtCall2 p c ++ rest)).bind pCall2 = some (normCall2 c, ts) :=
+  pCall2_fmtCall2 p c rest ts hp hw hrest hr
+
+/-- **Idempotent, call statement.**  Printing what was read back gives the same text, with any prefix. -/
+theorem format_call2_idem (p : List UInt8) (c : Call2) (hw : wfCall2 c = true) :
+    fmtCall2 p (normCall2 c) = fmtCall2 p c :=
+  fmtCall2_norm p c hw
+
+/-- the normal form is well formed and a fixed point of `normCall2` (the latter for every call) -/
+theorem normCall2_stable (c : Call2) (hw : wfCall2 c = true) :
+    wfCall2 (normCall2 c) = true ∧ normCall2 (normCall2 c) = normCall2 c :=
+  ⟨wfCall2_norm c hw, normCall2_idem c⟩
+
+/-- read-then-print-then-read: the call read back prints the same and reads back as itself -/
+theorem format_parse_format_call2 (c c' : Call2) (hw : wfCall2 c = true)
+    (h : parseCall2 (fmtCall2 [] c) = some c') :
+    fmtCall2 [] c' = fmtCall2 [] c ∧ wfCall2 c' = true ∧ parseCall2 (fmtCall2 [] c') = some c' := by
+  rw [parse_format_call2 c hw] at h
+  injection h with h
+  subst h
+  refine ⟨fmtCall2_norm [] c hw, wfCall2_norm c hw, ?_⟩
+  rw [parse_format_call2 _ (wfCall2_norm c hw), normCall2_idem]
+
+/-- what the `using` block of the printed call holds: the bindings of the block and `= true` for
+every keyword modifier that has no binding, in ascending order of the ids; it is printed iff it is
+not empty; all of it is well formed with distinct ids -/
+theorem using_block_normal_form (m : Mods) (hw : wfMods m = true) :
+    sortedMods (modList m) = true ∧ (modList m).all wfMod = true ∧ distinctIds (modList m) = true ∧
+    usingPrinted m = !(modList m).isEmpty ∧
+    (∀ k, hasId k (modList m) = (hasId k m.binds || (m.loc && k == sLocal) ||
+      (m.pre && k == sPreflight) || (m.vol && k == sVolatile))) :=
+  ⟨sortMods_sorted _, (modList_wf m hw).1, (modList_wf m hw).2, usingPrinted_eq m, hasId_modList m⟩
+
+/-- the lexer sees exactly the intended tokens, whatever follows -/
+theorem lex_format_call2 (p : List UInt8) (c : Call2) (rest : List UInt8) (hp : p.all isSp = true)
+    (hw : wfCall2 c = true) :
+    lexAll (fmtCall2 p c ++ rest) = (lexAll rest).map (toksCall2 c ++ ·) :=
+  lexAll_fmtCall2 p c rest hp hw
+
+/-- `BindStms.format` on a list the parser does not build: nothing after the wildcard binding is
+printed (or measured for the alignment) -/
+theorem wildcard_ends_bindings (p : List UInt8) (bs : List Bind) (e : Exp) (junk : List Bind)
+    (h : ∀ b ∈ bs, b.id ≠ sStar) :
+    fmtBindStms p (bs ++ wildBind e :: junk) = fmtBindStms p (bs ++ [wildBind e]) :=
+  fmtBindStms_trunc p bs e junk h
+
+/-- the model extends `Martian.FormatCall`: same text for a call without wildcard and modifiers -/
+theorem format_call2_extends_call (c : Call) (h : c.binds.all wfBind = true) :
+    fmtCall2 [] ⟨c.decId, c.id, c.binds, none, noMods⟩ = fmtCall c :=
+  fmtCall2_plain c h
+
+/-- **Round trip, `return (…)`**, followed by any text that lexes -/
+theorem parse_format_return (r : Ret) (rest : List UInt8) (ts : List Tok) (hw : wfRet r = true)
+    (hrest : lexAll rest = some ts) :
+    (lexAll (fmtReturn r ++ rest)).bind pReturn = some (normRet r, ts) :=
+  pReturn_fmtReturn r rest ts hw hrest
+
+/-- **Idempotent, `return (…)`**; the normal form is stable -/
+theorem format_return_idem (r : Ret) (hw : wfRet r = true) :
+    fmtReturn (normRet r) = fmtReturn r ∧ wfRet (normRet r) = true ∧ normRet (normRet r) = normRet r :=
+  ⟨fmtReturn_norm r hw, wfRet_norm r hw, normRet_idem r⟩
+
+/-- **Round trip, `retain (…)`**, followed by any text that lexes: the references come back
+unchanged (so printing them again gives the same text) -/
+theorem parse_format_pipeline_retain (rs : List Exp) (rest : List UInt8) (ts : List Tok)
+    (hw : wfPRetain rs = true) (hrest : lexAll rest = some ts) :
+    (lexAll (fmtPRetain rs ++ rest)).bind pPRetain = some (some rs, ts) :=
+  pPRetain_fmtPRetain rs rest ts hw hrest
+
+/-- **Round trip, the statements of a pipeline** (`call`s in the order the formatter leaves them in,
+`return`, optional `retain`, the closing brace), followed by any text that lexes (the next
+declaration, the top-level call) -/
+theorem parse_format_body (b : Body) (rest : List UInt8) (ts : List Tok) (hw : wfBody b = true)
+    (hrest : lexAll rest = some ts) :
+    (lexAll (fmtBody b ++ rest)).bind pBody = some (normBody b, ts) :=
+  pBody_fmtBody b rest ts hw hrest
+
+/-- **Idempotent, the statements of a pipeline**; the normal form is stable -/
+theorem format_body_idem (b : Body) (hw : wfBody b = true) :
+    fmtBody (normBody b) = fmtBody b ∧ wfBody (normBody b) = true ∧ normBody (normBody b) = normBody b :=
+  ⟨fmtBody_norm b hw, wfBody_norm b hw, normBody_idem b⟩
+
+/-- non-vacuity: a well-formed map call of a callee named `local`, with `as`, a split binding, a
+plain binding whose value `norm` changes, a wildcard binding `* = self`, the keyword modifiers
+`local` and `volatile`, and a `using` block `volatile = false, disabled = D.x` (so `volatile` keeps
+its binding, `local = true` is added, and the block is re-ordered) -/
+example :
+    let c : Call2 := ⟨sLocal, [0x59],
+      [⟨[0x61], true, .ref true [0x70] []⟩, ⟨[0x62, 0x62], false, .struct [([0x6B], .float [0x31, 0x30, 0x30])]⟩],
+      some (.ref true [] []),
+      ⟨true, false, true, [(sVolatile, .bool false), (sDisabled, .ref false [0x44] [[0x78]])]⟩⟩
+    wfCall2 c = true ∧ isMap2 c = true ∧ usingPrinted c.mods = true ∧
+      toksMods (modList c.mods) = [.id sDisabled, .punct 0x3D, .id [0x44], .punct 0x2E, .id [0x78], .punct 0x2C,
+        .id sLocal, .punct 0x3D, .kTrue, .punct 0x2C, .id sVolatile, .punct 0x3D, .kFalse, .punct 0x2C] ∧
+      (pCall2 (toksCall2 c ++ [.reserved sReturn])).map (fun x => (toksCall2 x.1, x.2)) =
+        some (toksCall2 (normCall2 c), [.reserved sReturn]) := by decide +kernel
+
+/-- non-vacuity: a well-formed body: two calls, `return` with a wildcard, `retain` -/
+example :
+    let b : Body := ⟨[⟨[0x41], [0x41], [], none, ⟨false, true, false, []⟩⟩,
+        ⟨[0x42], [0x42], [⟨[0x78], false, .ref false [0x41] [[0x6F]]⟩], some (.ref false [0x41] []), noMods⟩],
+      ⟨[⟨[0x72], false, .ref false [0x42] [[0x6F]]⟩], some (.ref true [] [])⟩,
+      some [.ref false [0x42] [[0x6F]], .ref true [0x61] []]⟩
+    wfBody b = true ∧
+      (pBody (toksBody b)).map (fun x => (toksBody x.1, x.2)) = some (toksBody (normBody b), []) := by
+  decide +kernel
+
+/-- Negative witnesses.  (1) keyword `local` together with the binding `local = false`: the printer
+keeps the binding and drops the keyword (the block holds `local = false` only); (2) two `using`
+blocks: the reader keeps the second (`Modifiers.Bindings` is replaced); (3) a modifier keyword
+before `(` is the callee's name, twice it is a modifier and a name; (4) a binding after the
+wildcard, a wildcard that is not a reference, and `map call` with only a wildcard are rejected;
+(5) outside `wfCall2`: duplicate modifier ids, `disabled = true`, `local = 1`, a wildcard `* = 1`,
+a wildcard reference `self` with an output path but no parameter name. -/
+theorem call2_near_misses :
+    -- (1)
+    toksMods (modList ⟨true, false, false, [(sLocal, .bool false)]⟩) =
+      [.id sLocal, .punct 0x3D, .kFalse, .punct 0x2C] ∧
+    -- (2) call X() using (local = true,) using (volatile = true,)
+    (pCall2 [.reserved sCall, .id [0x58], .punct 0x28, .punct 0x29, .id sUsing, .punct 0x28, .id sLocal,
+      .punct 0x3D, .kTrue, .punct 0x2C, .punct 0x29, .id sUsing, .punct 0x28, .id sVolatile, .punct 0x3D,
+      .kTrue, .punct 0x2C, .punct 0x29]).map (fun x => (toksCall2 x.1, x.2)) =
+      some (toksCall2 ⟨[0x58], [0x58], [], none, ⟨false, false, false, [(sVolatile, .bool true)]⟩⟩, []) ∧
+    -- (3) call local()   /   call local local()
+    (pCall2 [.reserved sCall, .id sLocal, .punct 0x28, .punct 0x29]).map (fun x => (x.1.mods.loc, x.1.decId)) =
+      some (false, sLocal) ∧
+    (pCall2 [.reserved sCall, .id sLocal, .id sLocal, .punct 0x28, .punct 0x29]).map
+      (fun x => (x.1.mods.loc, x.1.decId)) = some (true, sLocal) ∧
+    -- (4) call X(* = self, a = 1,)   /   call X(* = 1,)   /   map call X(* = self,)
+    (pCall2 [.reserved sCall, .id [0x58], .punct 0x28, .punct 0x2A, .punct 0x3D, .kSelf, .punct 0x2C,
+      .id [0x61], .punct 0x3D, .int [0x31], .punct 0x2C, .punct 0x29]).isNone = true ∧
+    (pCall2 [.reserved sCall, .id [0x58], .punct 0x28, .punct 0x2A, .punct 0x3D, .int [0x31], .punct 0x2C,
+      .punct 0x29]).isNone = true ∧
+    (pCall2 [.reserved sMap, .reserved sCall, .id [0x58], .punct 0x28, .punct 0x2A, .punct 0x3D, .kSelf,
+      .punct 0x2C, .punct 0x29]).isNone = true ∧
+    -- (5)
+    wfMods ⟨false, false, false, [(sLocal, .bool true), (sLocal, .bool false)]⟩ = false ∧
+    wfMod (sDisabled, .bool true) = false ∧ wfMod (sLocal, .int 1) = false ∧
+    wfWild (.int 1) = false ∧ wfWild (.ref true [] [[0x78]]) = false := by decide +kernel
+
+end PipelineStatements
 
 end Props.C09
